@@ -32,7 +32,7 @@ fn floors(t: Tier) -> Vec<(String, u64)> {
     if t == Tier::Miri {
         return vec![("judged".into(), 50)];
     }
-    let mut f: Vec<(String, u64)> = vec![("judged".into(), 30_000), ("expected.ok".into(), 1000), ("expected.err".into(), 20_000), ("errors.matched".into(), 30_000), ("multi_error_lists".into(), 5_000), ("zlb".into(), 10), ("stop_at_unusable_length".into(), 2000), ("many_records".into(), 50), ("fault_counts".into(), 30)];
+    let mut f: Vec<(String, u64)> = vec![("judged".into(), 30_000), ("expected.ok".into(), 1000), ("expected.err".into(), 20_000), ("errors.matched".into(), 30_000), ("multi_error_lists".into(), 5_000), ("zlb".into(), 10), ("stop_at_unusable_length".into(), 2000), ("many_records".into(), 50), ("fault_counts".into(), 30), ("reentrant_reader.compared".into(), 10_000)];
     for k in 1..=N_FAULTS {
         f.push((format!("fault.{}", k), 500));
     }
@@ -197,6 +197,22 @@ fn judge(ctx: &mut Ctx, mut recs: Vec<Rec>) {
         ("record_count", J::U(recs.len() as u64)),
         ("records", J::A(recs.iter().rev().take(12).rev().map(|r| J::obj(vec![("hex", J::hex(&r.bytes)), ("fault", J::U(r.fault)), ("expected", J::s(format!("{:?}", r.expect)))])).collect())),
     ]);
+    // the same message through a reader that performs a nested decode on its n-th call must give
+    // the very same verdict and error list
+    if msg.len() < 4096 {
+        let base = exec::decode_msg(&msg, Some(SOpts::STRICT), Rk::Slice);
+        let trigger = 1 + ctx.rng.below(12 + 3 * recs.len() as u64);
+        let re = exec::decode_msg(&msg, Some(SOpts::STRICT), Rk::Reentrant(trigger));
+        ctx.rep.bucket("reentrant_reader.compared");
+        if !same_out(&base.out, &re.out) && !base.out.abnormal() {
+            ctx.violate(
+                "C15:result-changes-with-nested-decode",
+                format!("decoded through a reader that decodes another message on its call #{}, the result is {} instead of {}", trigger, out_str(&re.out), out_str(&base.out)),
+                wit.clone(),
+            );
+            return;
+        }
+    }
     for o in [SOpts::STRICT, SOpts::NONE] {
         let run = exec::decode_msg(&msg, Some(o), Rk::Slice);
         match &run.out {
